@@ -150,8 +150,13 @@ def _group(items, kinds, thr, leaf):
     gspec = group_spec(kinds, leaf)
     refs = [rf for _, rf in fns]
     exp = loop_ref(items, refs, leaf)
-    got = glom(items, gspec, glom_debug=True)
-    got2 = glom(items, gspec, glom_debug=True)          # re-use of the same spec object
+    first = glom(items, gspec, glom_debug=True)
+    if isinstance(first, dict):
+        first['junk-added-by-caller'] = [1]               # a caller may do anything with a result ...
+    elif isinstance(first, list):
+        first.append('junk-added-by-caller')
+    got = glom(items, gspec, glom_debug=True)             # ... the next evaluation of the same spec object starts clean
+    got2 = glom(items, gspec, glom_debug=True)
     if not _same(got2, got):
         return fail(why='re-use differs', got=got, got2=got2)
     if leaf == 4:
